@@ -3,15 +3,19 @@ package checks
 import (
 	"bytes"
 	"encoding/binary"
+	"errors"
 	"fmt"
 	"net"
 	"net/netip"
+	"os"
+	"os/exec"
 	"strings"
 	"syscall"
 	"time"
 
 	"github.com/talostrading/sonic"
 	"github.com/talostrading/sonic/multicast"
+	"github.com/talostrading/sonic/sonicerrors"
 	"golang.org/x/sys/unix"
 
 	"verif/internal/rawpeer"
@@ -927,7 +931,129 @@ func c12PeerUnicast(c *vf.Case, ioc *sonic.IO, p *multicast.UDPPeer) {
 	}
 }
 
+// c12SendBufferFull: a datagram write that the kernel refuses for now (EAGAIN: the socket's send buffer is charged with
+// datagrams waiting for a neighbour that does not answer) is parked and later emits exactly one datagram with exactly
+// the caller's bytes, and completes exactly once - never with would-block. The situation is built with a veth pair in
+// the case's own network namespace: datagrams to an unresolvable neighbour sit in the ARP queue (about half a
+// second here) and stay charged to the sending socket, whose send buffer is at the minimum.
+func c12SendBufferFull(c *vf.Case, usePeer bool) {
+	sh := func(cmd string) error { return exec.Command("/bin/sh", "-c", cmd).Run() }
+	if err := sh("ip link add vfv0 type veth peer name vfv1 && ip addr add 10.77.0.1/24 dev vfv0 && ip link set vfv0 up && ip link set vfv1 up"); err != nil {
+		_ = sh("ip link del vfv0 2>/dev/null")
+		c.Logf("send-buffer-full probe skipped: cannot create a veth pair here (%v)", err)
+		c.Count("send_buffer_full_probes_skipped", 1)
+		return
+	}
+	defer sh("ip link del vfv0")
+	_ = os.WriteFile("/proc/sys/net/ipv4/neigh/vfv0/retrans_time_ms", []byte("250"), 0o644)
+	_ = os.WriteFile("/proc/sys/net/ipv4/neigh/vfv0/mcast_solicit", []byte("2"), 0o644)
+	ioc := sonic.MustIO()
+	defer ioc.Close()
+	rfd, rport, err := rawpeer.UDP4([4]byte{10, 77, 0, 1})
+	if err != nil {
+		c.Logf("send-buffer-full probe skipped: %v", err)
+		c.Count("send_buffer_full_probes_skipped", 1)
+		return
+	}
+	defer syscall.Close(rfd)
+	var fd int
+	var write func(b []byte, port int, ip [4]byte, cb func(error, int))
+	kind := "packet-conn"
+	if usePeer {
+		kind = "udp-peer"
+		p, err := multicast.NewUDPPeer(ioc, "udp", "10.77.0.1:0")
+		if err != nil {
+			c.Failf("harness-setup", "NewUDPPeer on the veth address: %v", err)
+			return
+		}
+		defer p.Close()
+		fd = p.NextLayer().RawFd()
+		write = func(b []byte, port int, ip [4]byte, cb func(error, int)) {
+			p.AsyncWrite(b, netip.AddrPortFrom(netip.AddrFrom4(ip), uint16(port)), cb)
+		}
+	} else {
+		p, err := sonic.NewPacketConn(ioc, "udp", "10.77.0.1:0")
+		if err != nil {
+			c.Failf("harness-setup", "NewPacketConn on the veth address: %v", err)
+			return
+		}
+		defer p.Close()
+		fd = p.RawFd()
+		write = func(b []byte, port int, ip [4]byte, cb func(error, int)) {
+			p.AsyncWriteTo(b, &net.UDPAddr{IP: net.IPv4(ip[0], ip[1], ip[2], ip[3]), Port: port}, func(err error) {
+				k := len(b) // the packet conn's completion carries no count
+				if err != nil {
+					k = 0
+				}
+				cb(err, k)
+			})
+		}
+	}
+	rawpeer.SetBufs(fd, 1, 0) // the kernel's minimum
+	// a few datagrams through the library, then raw sends on the same descriptor until the kernel says EAGAIN
+	stuckDone := 0
+	for i := 0; i < 2; i++ {
+		write(make([]byte, 1300), 9, [4]byte{10, 77, 0, 77}, func(error, int) { stuckDone++ })
+	}
+	full := false
+	for i := 0; i < 64 && !full; i++ {
+		err := syscall.Sendto(fd, make([]byte, 1300), syscall.MSG_DONTWAIT, &syscall.SockaddrInet4{Addr: [4]byte{10, 77, 0, 77}, Port: 9})
+		full = err == syscall.EAGAIN
+	}
+	if !full {
+		c.Logf("send-buffer-full probe skipped: the kernel never refused a datagram")
+		c.Count("send_buffer_full_probes_skipped", 1)
+		return
+	}
+	payload := make([]byte, c.Rng.Range(1, 1200))
+	gen := c.Rng.U64()
+	vf.GenFill(payload, gen, 0)
+	calls, n := 0, 0
+	var werr error
+	write(payload, rport, [4]byte{10, 77, 0, 1}, func(err error, nn int) { calls++; werr, n = err, nn })
+	inline := calls
+	c.Logf("send-buffer-full/%s: %d-byte write started with the send buffer full: %d completions inside the call (err=%v)", kind, len(payload), calls, werr)
+	if calls > 0 && errors.Is(werr, sonicerrors.ErrWouldBlock) {
+		c.Failf("write-completed-with-would-block/"+kind, "a %d-byte datagram write started while the socket's send buffer was full completed with %v instead of being parked", len(payload), werr)
+		return
+	}
+	deadline := time.Now().Add(8 * time.Second)
+	for calls == 0 && time.Now().Before(deadline) {
+		_, _ = ioc.PollOne()
+		time.Sleep(2 * time.Millisecond)
+	}
+	for i := 0; i < 20; i++ {
+		_, _ = ioc.PollOne()
+	}
+	c.Count("send_buffer_full_probes", 1)
+	if inline == 0 {
+		c.Count("datagram_writes_parked_on_a_full_send_buffer", 1)
+	}
+	if calls != 1 || werr != nil || n != len(payload) {
+		c.Failf("parked-datagram-write-completion/"+kind, "a %d-byte datagram write started while the socket's send buffer was full: callback invoked %d times, err=%v n=%d", len(payload), calls, werr, n)
+		return
+	}
+	var got [][]byte
+	for {
+		d := make([]byte, 2048)
+		k, _, err := syscall.Recvfrom(rfd, d, syscall.MSG_DONTWAIT)
+		if err != nil || k < 0 {
+			break
+		}
+		got = append(got, d[:k])
+	}
+	if len(got) != 1 || !bytes.Equal(got[0], payload) {
+		c.Failf("parked-datagram-write-differs/"+kind, "the destination received %d datagrams for one %d-byte write parked on a full send buffer (first: %d bytes, equal to the caller's bytes: %v)", len(got), len(payload), len(append(got, nil)[0]), len(got) > 0 && bytes.Equal(got[0], payload))
+	}
+}
+
 func runC12(c *vf.Case) {
+	if c.Index%200 == 7 || c.Index%200 == 108 {
+		c12SendBufferFull(c, c.Index%200 == 108)
+		if c.Failed() {
+			return
+		}
+	}
 	if c.Index%3 == 0 {
 		c12PacketConn(c)
 	} else {
